@@ -61,6 +61,14 @@ func (s *State) assume(c string) {
 	}
 	if len(s.guards) > 0 {
 		c = implies(and(s.guards...), c)
+	} else if strings.HasPrefix(c, "(and ") {
+		// conjuncts are kept as separate hypotheses: the slicer then selects what a goal needs
+		if g, ok := parseSx(c); ok && g.head() == "and" && len(g.kids) > 2 {
+			for _, k := range g.kids[1:] {
+				s.assume(k.String())
+			}
+			return
+		}
 	}
 	// the same fact is often re-derived (type invariants of repeated reads): keep one copy.
 	// Only the recent suffix is scanned; older duplicates are harmless.
@@ -96,6 +104,7 @@ type Obl struct {
 	Checked []string // solvers that returned unsat (thorough cross-check)
 	NoPre   bool     // skip skolemisation/instantiation pre-processing
 	SliceDepth int   // >0: depth-limited slicing of the hypotheses (stage 0)
+	Stage      string // which stage of the portfolio decided it
 	Expect  string   // "unsat" (default, goal must be valid) or "sat" (vacuity guards)
 }
 
